@@ -62,6 +62,7 @@ deriving Inhabited
 def evalCond2 (env : Env) (cfg : Cfg) (rec : Rec) (σ : Store) : Cond2 → (Bool → Gen) → Gen
   | .c1 c, k => evalCond env cfg rec σ.js c k
   | .truthyVar x, k => withRes (σ.get x) fun v => k v.truthy
+  | .resolverLacksResolve, k => k false     -- the model's resolver is `RefResolver`, which has `resolve`
   | .notC c, k => evalCond2 env cfg rec σ c (fun b => k (!b))
 
 /-- the tuples a loop will receive, and (for a stored iterator) the name it is stored under -/
@@ -133,6 +134,18 @@ def pathElems (env : Env) (cfg : Cfg) (σ : Locals) : List Ex → Res (List Path
   | e :: es =>
     (evalEx env cfg σ e).bind fun v => (pathElemOf v).bind fun p =>
       (pathElems env cfg σ es).bind fun ps => .ok (p :: ps)
+
+/-- `validator.resolver.resolve(v)` for any value `v` (see `JS.refReading`): the resolver's state moves -/
+def resolveAny (env : Env) (v : Json) (st : RState) : Res (Str × Json) × RState :=
+  match refReading v with
+  | .ref r => resolve env r st
+  | .emptyOrUnresolvable => if st.top.isEmpty then (.raise .refResolution, st) else resolve env [] st
+  | .typeError => (.raise (.crash "TypeError"), st)
+
+/-- run `g`, then `pop_scope()` — on EVERY exit (the `finally`) -/
+def popAfter (g : Gen) : Gen := fun b st =>
+  match g b st with
+  | ⟨es, s, st'⟩ => ⟨es, s, { st' with scopes := st'.scopes.tail }⟩
 
 mutual
 def exec2 (env : Env) (cfg : Cfg) (rec : Rec) : St2 → Store → (Flow2 → Gen) → Gen
@@ -211,6 +224,23 @@ def exec2 (env : Env) (cfg : Cfg) (rec : Rec) : St2 → Store → (Flow2 → Gen
       match a with
       | .err er => andThen (emit [er]) (k (.next σ))
       | _ => crashG "Unmodelled"
+  | .resolveRef x y e, σ, k =>
+    withRes (evalEx env cfg σ.js e) fun v => fun b st =>
+      match resolveAny env v st with
+      | (.ok (url, target), st1) => k (.next ((y, .j target) :: (x, .j (.str url)) :: σ)) b st1
+      | (.raise ex, st1) => ⟨[], .raised ex, st1⟩
+      | (.miss q, st1) => ⟨[], .miss q, st1⟩
+  | .pushScope e, σ, k =>
+    withRes (evalEx env cfg σ.js e) fun v =>
+      match v with
+      | .str scope => fun b st =>
+        match env.urljoin st.top scope with
+        | none => ⟨[], .miss (.urljoin st.top scope), st⟩
+        | some u => k (.next σ) b { st with scopes := u :: st.scopes }
+      | _ => crashG "TypeError"
+  | .tryFinallyPop body, σ, k =>
+    andThen (popAfter (execList2 env cfg rec body σ (fun _ => nothing))) (k (.next σ))
+  | .unsupportedSt _, _, _ => crashG "Unmodelled"
 
 def execList2 (env : Env) (cfg : Cfg) (rec : Rec) : List St2 → Store → (Flow2 → Gen) → Gen
   | [], σ, k => k (.next σ)
